@@ -820,6 +820,12 @@ def computehash_rule(A, rule):
         rule.inst(f"_computehash: {norm(c)[:60]}")
         rule.fail(ch, c, f"_computehash touches the file system / opens something (`{norm(c.func)}`): the hash of an identifier string then depends on "
                   "what files exist, so pid/format addresses no longer follow H(pid) of the published layout", A.p.loc(ch, c))
+    rebinds = [a for a in ast.walk(ch.node) if isinstance(a, (ast.Assign, ast.AugAssign, ast.AnnAssign, ast.NamedExpr))
+               and any(isinstance(t, ast.Name) and t.id == sp for t in ([a.target] if not isinstance(a, ast.Assign) else a.targets))]
+    for a in rebinds:
+        rule.inst(f"_computehash: {norm(a)[:60]}")
+        rule.fail(ch, a, f"_computehash replaces its argument before hashing it (`{norm(a)[:70]}`): what is hashed is a transformed value, so two "
+                  "different identifiers can get the same address (or one identifier a non-standard one)", A.p.loc(ch, a))
     updates = [c for c in ast.walk(ch.node) if isinstance(c, ast.Call) and isinstance(c.func, ast.Attribute) and c.func.attr == "update"]
     if not updates:
         rule.fail(ch, "hash_obj.update(...)", "_computehash no longer feeds its argument to the hash object", A.p.loc(ch, ch.node))
